@@ -1,0 +1,14 @@
+//go:build verif
+
+package smtpconn
+
+import "github.com/foxcpp/maddy/framework/log"
+
+// VerifWrapClientErr exposes the conversion of an error returned by the SMTP
+// client library into maddy's annotated error (C.wrapClientErr) to the
+// verification harness.
+func VerifWrapClientErr(err error, serverName string) error {
+	c := New()
+	c.Log = log.Logger{Out: log.NopOutput{}}
+	return c.wrapClientErr(err, serverName)
+}
